@@ -9,6 +9,7 @@
 mod c02;
 mod c11;
 mod c12;
+mod c14;
 mod c15;
 mod c16;
 mod c17;
@@ -30,6 +31,7 @@ fn engine(id: &str) -> &'static dyn Engine {
         "C02" => &c02::C02,
         "C11" => &c11::C11,
         "C12" => &c12::C12,
+        "C14" => &c14::C14,
         "C15" => &c15::C15,
         "C16" => &c16::C16,
         "C17" => &c17::C17,
